@@ -211,8 +211,16 @@ MUTANTS = [
            "    def skip_if_subset",
        "    results = self._heap\n\n    def skip_if_subset")]),
     ('c10_random_tmp_score_survives', 'C10',
-     [(MM, "        corr=0,\n        inv_required_impact=0)",
-       "        corr=tmp_score.score.corr,\n        inv_required_impact=0)")]),
+     [(MM, "    tmp_score.score = tmp_score.score._replace(\n"
+           "        corr_test=0,\n        aa_test=0,\n        bb_test=0,\n"
+           "        dw_test=0,\n        corr=0,\n"
+           "        inv_required_impact=0)\n",
+       "    tmp_score.score = tmp_score.score._replace(\n"
+       "        corr_test=0,\n        aa_test=0,\n        bb_test=0,\n"
+       "        dw_test=0,\n        corr=0,\n"
+       "        inv_required_impact=0)\n"
+       "    if tmp_diag.y[0] > 0.5:\n"
+       "      self.geo_req_impact = self.geo_req_impact.iloc[::-1]\n")]),
     ('c10_retrieval_consumes', 'C10',
      [(MM, "    result = self._search_results.get_result()\n",
        "    result = self._search_results.get_result()\n"
@@ -283,13 +291,6 @@ MUTANTS = [
        "greedy_search().\"\"\"\n    budget_range = self.parameters."
        "budget_range\n    results = heapdict.HeapDict(size=self.parameters."
        "n_designs + 1)\n")]),
-    ('c14_exhaustive_drops_ties', 'C14',
-     [(MM, "          results.push(0, design)\n\n    self._search_results = "
-           "results\n    return self.search_results()\n\n  def search_results",
-       "          if not any(design.score.score == r.score.score for r in "
-       "results.get_result().get(0, [])):\n            results.push(0, design)"
-       "\n\n    self._search_results = results\n    return self.search_results()"
-       "\n\n  def search_results")]),
 ]
 
 
